@@ -1,6 +1,7 @@
 (* C10/Props.v — property theorems only *)
 From Coq Require Import QArith Qabs List Bool.
-From FV Require Import Base.Ser Base.Res Geom.QTools C09.Model C10.Model C10.Proofs.
+From FV Require Import Base.Ser Base.Res Geom.QTools C09.Model C10.Model C10.Proofs C10.ModelSupports.
+From FV Require C10.ProofsSupports.
 Import ListNotations.
 Open Scope Q_scope.
 
@@ -31,3 +32,35 @@ Print Assumptions otRound_half.
 (* non-vacuity: three masters 10, 15.5, 31.25 with weights [[] ; [1]; [1; 1/2]] *)
 Example rounded_example : getDeltasRounded [10; 31 # 2; 125 # 4] [[]; [1]; [1; 1 # 2]] = [10; 6; 18].
 Proof. vm_compute. reflexivity. Qed.
+
+(* ---- the supports VariationModel computes (_locationsToRegions + _computeMasterSupports, ModelSupports.v), for ANY number of
+   masters and axes, over exact rationals *)
+
+(* at its own master a support is 1 *)
+Theorem support_one_at_own_master : forall ranges locs j L S,
+  nth_error locs j = Some L -> ProofsSupports.ranges_ok ranges L -> nth_error (supports ranges locs) j = Some S ->
+  supportScalarV L S == 1.
+Proof. exact ProofsSupports.support_one_at_own_master. Qed.
+Print Assumptions support_one_at_own_master.
+
+(* at every EARLIER master a support is 0: the earlier master either lacks one of the later master's axes, or the box has been
+   cut so that it lies on or outside its boundary *)
+Theorem support_zero_at_earlier_master : forall ranges locs k j Lk Lj S,
+  (k < j)%nat -> nth_error locs k = Some Lk -> nth_error locs j = Some Lj -> ProofsSupports.ranges_ok ranges Lj ->
+  ProofsSupports.differ Lj Lk -> (ProofsSupports.nz Lj = ProofsSupports.nz Lk \/ ProofsSupports.extra_axis Lj Lk) ->
+  nth_error (supports ranges locs) j = Some S ->
+  supportScalarV Lk S == 0.
+Proof. exact ProofsSupports.support_zero_at_earlier_master. Qed.
+Print Assumptions support_zero_at_earlier_master.
+
+(* hence: deltas computed with the model's own deltaWeights, evaluated with the scalars of ALL supports at master k's location,
+   give master k's value exactly -- for distinct locations inside the axis ranges, sorted with fewer axes first (the first
+   component of VariationModel's sort key) *)
+Theorem model_reproduces_masters_sorted : forall ranges locs masters k Lk m,
+  (forall j L, nth_error locs j = Some L -> ProofsSupports.ranges_ok ranges L) ->
+  (forall i j Li Lj, (i < j)%nat -> nth_error locs i = Some Li -> nth_error locs j = Some Lj ->
+     ProofsSupports.differ Lj Li /\ (ProofsSupports.count_nz Li <= ProofsSupports.count_nz Lj)%nat) ->
+  length masters = length locs -> nth_error locs k = Some Lk -> nth_error masters k = Some m ->
+  interpolate (getDeltas masters (deltaWeights ranges locs)) (map (supportScalarV Lk) (supports ranges locs)) == m.
+Proof. exact ProofsSupports.model_reproduces_masters_sorted. Qed.
+Print Assumptions model_reproduces_masters_sorted.
